@@ -26,7 +26,12 @@ import (
 //
 // with text.Trim around every token. The interpreter evaluates the left operand, the right
 // operand, then applies the operator; "/" by zero is reported at the operator's position.
-func arithParser() parsley.Parser {
+func arithParser() parsley.Parser { return arithParserStyle(0) }
+
+// arithParserStyle: style 0 as described; style 1 is the same language written the way the
+// library's JSON example is written: every token left-trimmed only, the non-recursive alternative
+// listed first, and text.Trim around the root rule.
+func arithParserStyle(style int) parsley.Parser {
 	binop := ast.InterpreterFunc(func(userCtx interface{}, node parsley.NonTerminalNode) (interface{}, parsley.Error) {
 		ch := node.Children()
 		l, err := parsley.EvaluateNode(userCtx, ch[0])
@@ -68,6 +73,22 @@ func arithParser() parsley.Parser {
 		})
 	}
 	tok := func(p parsley.Parser) parsley.Parser { return text.Trim(guard(p)) }
+	if style == 1 {
+		tok = func(p parsley.Parser) parsley.Parser { return text.LeftTrim(guard(p), text.WsSpacesNl) }
+		factor = combinator.Memoize(combinator.Any(
+			tok(terminal.Integer("int")),
+			combinator.SeqOf(tok(terminal.Rune('(')), &expr, tok(terminal.Rune(')'))).Bind(interpreter.Select(1)),
+		))
+		term = combinator.Memoize(combinator.Any(
+			&factor,
+			combinator.SeqOf(&term, tok(combinator.Any(terminal.Rune('*'), terminal.Rune('/'))), &factor).Bind(binop),
+		))
+		expr = combinator.Memoize(combinator.Any(
+			&term,
+			combinator.SeqOf(&expr, tok(combinator.Any(terminal.Rune('+'), terminal.Rune('-'))), &term).Bind(binop),
+		))
+		return combinator.Sentence(text.Trim(&expr))
+	}
 	factor = combinator.Memoize(combinator.Any(
 		tok(terminal.Integer("int")),
 		combinator.SeqOf(tok(terminal.Rune('(')), &expr, tok(terminal.Rune(')'))).Bind(interpreter.Select(1)),
